@@ -320,7 +320,7 @@ def check(hist: list[dict], mode: str, eps_due: float, res_order: float, qwait: 
                 elif cid in unserved and not any(unserved[cid] < j < i for j in w["entries"]):
                     # real OS: a registered readable descriptor ends a wait at once and must be dispatched before the
                     # loop waits again; two quiescent waits in a row that both start with it readable prove it is not served
-                    R.bad("watch-served", "two-quiescent-waits-while-watched-fd-readable" + ("|watch-was-registered-in-idle-callback" if (hist[w["reg"]].get("ctx") or [None, None])[1] == "idle" else ""), f"loop started two quiescent waits (events {unserved[cid]}, {i}) while watch {cid} fd {w['fd']} stayed readable and was not called", i)
+                    R.bad("watch-served", "two-quiescent-waits-while-watched-fd-readable" + ("|watch-was-registered-in-idle-callback" if (hist[w["reg"]].get("ctx") or [None, None])[1] == "idle" else "") + _last_return_truthy(hist, {c for c, x in watches.items() if x["fd"] == w["fd"]}, unserved[cid]), f"loop started two quiescent waits (events {unserved[cid]}, {i}) while watch {cid} fd {w['fd']} stayed readable and was not called", i)
                 else:
                     unserved[cid] = i
 
@@ -457,6 +457,16 @@ def _ctxkind(ctx, own=None):
 
 def _where(ev):
     return _ctxkind(ev.get("ctx"))
+
+
+def _last_return_truthy(hist, cids, upto):
+    """signature suffix: did the last completed call of a watch callback for this descriptor (ids `cids`: the watch
+    itself or an earlier watch on the same descriptor) before event `upto` return a true value?"""
+    for k in range(upto, -1, -1):
+        ev = hist[k]
+        if ev["e"] == "exit" and ev["id"] in cids:
+            return "|after-its-callback-returned-a-true-value" if ev.get("ret") in ("true", "one", "str", "obj") and ev["raised"] is None else ""
+    return ""
 
 
 def _is_quiescent(ev, qwait):
